@@ -454,6 +454,8 @@ fn count_roots(model: &Arc<Model>, t: Temperature, moles: &Moles<Array1<f64>>, p
     let mut prev: Option<f64> = None;
     let mut roots = 0;
     let mut unstable = false;
+    // closest approach of the isotherm to the target pressure behind the first unstable point
+    let mut min_behind = f64::MAX;
     for rho in grid {
         let s = State::new_nvt(model, t, n / Density::from_reduced(rho), moles).ok()?;
         let pk = s.pressure(Contributions::Total).to_reduced() - p;
@@ -463,12 +465,22 @@ fn count_roots(model: &Arc<Model>, t: Temperature, moles: &Moles<Array1<f64>>, p
         if s.dp_drho(Contributions::Total).to_reduced() <= 0.0 {
             unstable = true;
         }
+        if unstable {
+            min_behind = min_behind.min(pk.abs());
+        }
         if let Some(pp) = prev {
             if (pp < 0.0) != (pk < 0.0) {
                 roots += 1;
             }
         }
         prev = Some(pk);
+    }
+    // a van der Waals loop whose extremum comes within 5 % of the target pressure without a sign
+    // change on the grid can hide a pair of roots between two grid points (seen: loop minimum
+    // 3e-5 above p = 1.46e-3 on the grid, new_npt(Liquid) finds a root there to 1e-12): not a
+    // single-root situation
+    if roots == 1 && unstable && min_behind < 0.05 * p.abs() {
+        roots = 3;
     }
     Some((roots, unstable))
 }
@@ -1482,7 +1494,7 @@ pub fn run(ctx: &Ctx) {
     ctx.set_rule("All parts compare a guided call with the unguided / stand-alone call on the same input. pure-guess: C04 record pool x T/Tc in the success range x guess = converged equilibrium at T' with |T'-T| <= 0.3 Tc x options x T- or p-specification. state-guess: 1-2 hydrocarbon PC-SAFT components x T/Tc_max in [0.5,2] x target density (log-uniform 1e-4..0.1 and uniform 0.1..0.85 of rho_max) whose pressure has exactly one root on the isotherm (600-point scan) x guess factor in [1/3,3]: new_npt with InitialDensity/Vapor/Liquid vs None; pure components above p_c additionally new_nph/new_nps/new_nvu with initial_temperature and new_nts with InitialDensity. state-two-roots: pure records of parameters/pcsaft/gross2001, gross2002, gross2005_fit, gross2005_literature, gross2006 (133 records) x target = the root returned by new_npt(None): liquid targets at T/Tc in [0.5,0.94] (half in [0.86,0.94]), p = 1.02 p_sat + u (min(p_spinodal_vapour, 3 p_sat) - 1.02 p_sat), rho0/rho_liquid uniform in [0.6,1.3]; vapour targets at T/Tc in [0.5,0.945], p in [0.5,0.98] p_sat, rho0/rho_vapour log-uniform in [0.3,3], half of them in the corner T/Tc in [0.9,0.945], p >= 0.88 p_sat, rho0/rho_vapour in [2.4,3] from which the unstable region is reached; non-trivial there: rho0 mechanically unstable or more than 10 % off. flash-guess: 2-3 hydrocarbons (SMILES only C,H; non-polar, non-associating; Tc ratio < 1.8; k_ij in +-0.05) x T/Tc_low in [0.6,0.95] x p inside an envelope wider than 5 % x initial state = flash at (T(1+-3 %), p(1+-15 %)). bubble-dew-guess: tp_init = solution x [1/3,3], molefracs_init = solution x [1/3,3] renormalised; p-specification: two initial temperatures within +-10 %. diagram-pure: npoints 3-120, T_min/Tc in [0.3,0.9], max_iter 3-60; 25 % of the cases on records with known failing temperatures. diagram-binary: T/Tc_low in [0.6,1.25], npoints 3-40, options incl. outer max_iter 4-40, and the component-swapped model. lines: npoints 6-24, T_min/Tc_mix in [0.5,0.9]. Non-trivial: guess differs from the solution by > 10 %, or a diagram point with index >= 1 was compared. Distinct by hash of the canonical case.");
     ctx.assume("tolerances: 2e-7 relative on T, p and 2e-7 absolute on mole fractions for Newton-converged results (bubble/dew points, density and temperature iterations; >= 100 x their tolerances 1e-9..1e-10; measured worst 7.6e-9 in 1.3e6 cases); densities from new_nts 5e-7 and from new_nph/new_nps/new_nvu 2e-6 (Newton on T with atol 1e-8 K; measured 9e-9 resp. 6e-9); a phase density follows the pressure with kappa = p/(rho dp/drho), its tolerance is tol_p x max(1, kappa); saturation pressures of pure equilibria 1e-6 (pure_t/pure_p stop on the pressure/temperature update while the densities are one Newton step behind: C04 measured residuals up to 1e-8 with the default tolerance), x10 above 0.99 Tc, x max(1, 1e5 x tol option / 1e-6) for looser solver tolerances; tp_flash densities/compositions 1e-5 x max(1, tol/1e-8) (the flash stops on |d ln K| < 1e-8 with linearly converging successive substitution; phase fraction divided by max|y-x|); bubble/dew tolerances scale with max(1, 100 x outer tolerance option / 2e-7)");
     ctx.assume("mixtures: non-associating non-polar PC-SAFT records whose SMILES contains only C and H, T_c ratio < 1.8, |k_ij| <= 0.05, T = max(tr x lowest T_c, 0.5 x highest T_c) (below ~0.45 T_c the pure PC-SAFT models have spurious dense phases, i.e. liquid-liquid demixing of the model); line points above 0.95 T_c,mix are not compared (ill-conditioned, outside C05's domain); results with opposite density order (bubble/dew exchange) or on different branches of a closed / retrograde envelope are different equilibria of the same equations and are counted as inconclusive");
-    ctx.assume("single-root situations for the state constructors are established by the harness (sign changes of p(rho) - p on a 600-point scan of the isotherm; p >= 1e-4 in reduced units because density_iteration resolves p to 1e-12 absolutely); new_nph/new_nps/new_nvu only for pure components at p > 1.05 p_c (h, s monotone in T, one density root for every T)");
+    ctx.assume("single-root situations for the state constructors are established by the harness (sign changes of p(rho) - p on a 600-point scan of the isotherm, and no approach of the loop to the target pressure closer than 5 % behind the first unstable point; p >= 1e-4 in reduced units because density_iteration resolves p to 1e-12 absolutely); new_nph/new_nps/new_nvu only for pure components at p > 1.05 p_c (h, s monotone in T, one density root for every T)");
     ctx.assume("state-two-roots: calibration of the domain: full grid 133 records x T/Tc 0.50..0.94 (step 0.02) x 6 pressures x 15 initial densities x 2 targets (550 620 cases): no deviation for liquid targets up to 0.94 and for vapour targets up to 0.92; dense scan of the vapour corner (133 records x T/Tc 0.89..0.94 step 0.0025 x p/p_sat 0.88..0.98 x rho0/rho_vapour 2.4..3.0, 36 575 cases per temperature): first deviations of the unchanged tree at T/Tc = 0.9325 (p >= 0.98 p_sat, rho0 = 3 rho_vapour: argon, methane, water), 26 at 0.935, 301 at 0.94 (the metastable liquid root is returned); the vapour domain extends to 0.945, and above 0.925 a returned metastable liquid root for rho0 >= 2.6 rho_vapour at p >= 0.93 p_sat is the open finding C12/initial-density-near-critical-returns-metastable-liquid (anything else there is a violation); tolerance 2e-7 x max(1, p/(rho dp/drho)); an Ok result that misses the specified pressure by > 1e-9 is the finding C12/density-iteration-unconverged-ok; Err results are counted");
     ctx.assume("PhaseDiagram::pure falls back to exactly the stand-alone cascade when the guided attempt fails (vle_pure.rs:39-61), so a grid temperature at which the stand-alone solve succeeds must be present; for bubble/dew lines and binary diagrams only 'both present => equal' is asserted (a guided failure has no fallback there)");
     ctx.assume("results that are collapsed pairs (finding C04/pure-collapsed-solution) are attributed to that finding");
